@@ -22,6 +22,7 @@ func c03(c *Ctx) {
 	a := c.processor()
 	p, R := a.p, c.R
 	R.Trust("go/types + go/ssa", "crypto.Ecrecover/Keccak256 semantics", "libp2p envelope handling", "protobuf one-of wrappers")
+	loopVarRule(c, p, "C03.loopvar", pkgProcessor, pkgP2P)
 	R.Assumption("with disableHeartbeatVerify=true (spy mode) heartbeat verification is off by design; rules are evaluated for the guardian configuration (false)")
 
 	// ---- C03.obs: every aggregation-state write in handleObservation -----------------------
